@@ -14,7 +14,7 @@ ASSUMPTIONS = ["relational monitor: a defect affecting both executions identical
                "only ERROR severity is compared (capitalisation warnings legitimately depend on spelling)"]
 MIN_MONITOR_EVALS = {"revalidation-stable": 3000, "codes-equal-under-rewrite": 3000, "repeat-reported-anywhere": 100}
 MIN_KINDS = {"base-kind": {"mixed-toplevel": 50, "same-base-repeat": 50, "two-tag-faults": 50,
-                           "def-expand-extra-member": 30, "fold-length-value": 100}, "rewrite": {"respace-text": 1000}}
+                           "def-expand-extra-member": 30, "fold-length-value": 100, "unit-case-twins": 30}, "rewrite": {"respace-text": 1000}}
 TREE_KINDS = ["unknown-tag", "extension-forbidden", "extension-is-schema-term", "requires-child", "bad-unit", "bad-value",
               "repeated-tag", "repeated-group", "taggroup-outside-group", "toplevel-nested", "empty-group",
               "stray-placeholder", "undeclared-def", "def-extra-value", "def-missing-value", "altered-def-expand",
@@ -172,6 +172,37 @@ def same_base_repeat(gen, items, rng):
     return items
 
 
+def unit_case_twins(gen, items, rng):
+    """The same unit-carrying tag twice, in two different groups: once with the unit symbol as the schema writes it and
+    once in another letter case (symbols are case-sensitive, so exactly one of the two is a fault)."""
+    import copy
+    o = gen.o
+    cands = [n for n in gen.values if o.unit_classes_of(n) and
+             (not o.value_classes_of(n) or "numericClass" in o.value_classes_of(n))]
+    if not cands:
+        return None
+    n = rng.choice(cands)
+    t = gen.table(n)
+    pairs = [(sp, w) for sp, ds in t.exact.items() if not any(d["prefix"] for d in ds)
+             for w in (sp.upper(), sp.lower(), sp.swapcase()) if w != sp and not t.accepted(w)]
+    if not pairs:
+        return None
+    sp, w = rng.choice(pairs)
+    num = rng.choice(annot.NUMERALS)
+    name = gen.spell(n)
+    good = annot.tag(name, f"/{num} {sp}", n.path, "value")
+    bad_text = f"{name}/{num} {w}"
+    bad = {"t": "tag", "name": bad_text, "suffix": "", "node": None, "role": "raw", "raw": bad_text}
+    g1 = annot.group([good, gen._plain_atom()])
+    g2 = annot.group([bad, gen._plain_atom()])
+    items = copy.deepcopy(items)
+    pair = [g1, g2]
+    rng.shuffle(pair)
+    for g in pair:
+        items.insert(rng.randrange(0, len(items) + 1), g)
+    return items
+
+
 def run_shard(shard, rec):
     rng = rec.rng
     v = shard["version"]
@@ -227,6 +258,15 @@ def run_shard(shard, rec):
             if it3 is not None:
                 items, kind = it3, "repeated-group"
                 rec.count("base-kind", "same-base-repeat")
+        if kind == "valid" and rng.random() < 0.08:
+            saved = set(gen.used)
+            try:
+                it3 = unit_case_twins(gen, items, rng)
+            except RuntimeError:
+                it3 = None
+            gen.used = saved
+            if it3 is not None:
+                items, kind = it3, "unit-case-twins"
         if kind == "valid" and gen.defs and "Def-expand" in gen.sp and rng.random() < 0.12:
             # a Def-expand group with a member too many: wherever the extra member is written, the verdict is the same
             import copy as _copy
